@@ -74,7 +74,14 @@ def gen_script(rng, pool, legal_cache, timed, long=True):
             if timed and k < 0.5:
                 lines.append(rng.choice(["go movetime 0", "go movetime 1", "go movetime 30", "go wtime 0 btime 0", "go wtime 100 btime 100",
                                          "go wtime 60 btime 60 winc 5 binc 5", "go wtime 200 btime 200 movestogo 0", "go wtime 200 btime 200 movestogo 1",
-                                         "go wtime 300 btime 300 winc 0 binc 0 movestogo 40", "go btime 50 wtime 50"]))
+                                         "go wtime 300 btime 300 winc 0 binc 0 movestogo 40", "go btime 50 wtime 50",
+                                         # values at the edge of the argument types (u32): tiny budgets, never long searches
+                                         "go wtime 200 btime 200 movestogo 4294967295", "go wtime 200 btime 200 movestogo 4294967294",
+                                         "go wtime 60000 btime 60000 winc 0 binc 0 movestogo 4294967295",
+                                         "go wtime 4294967295 btime 4294967295 movestogo 4294967295",
+                                         "go wtime 100 btime 100 winc 4294967295 binc 4294967295 movestogo 4294967295",
+                                         "go wtime 100 btime 100 movestogo 4294967296", "go wtime 0 btime 0 movestogo 2147483648",
+                                         "go wtime 4294967296 btime 100", "go movetime 4294967296", "go wtime 1 btime 1 winc 65536 binc 65536 movestogo 65536"]))
                 searches += 1
             elif k < 0.75:
                 lines.append(rng.choice(["go depth 0", "go depth 1", "go depth 2", "go depth 3", "go nodes 0", "go nodes 1", "go nodes 200", "go nodes 3000",
@@ -82,7 +89,8 @@ def gen_script(rng, pool, legal_cache, timed, long=True):
                 searches += 1
             else:
                 lines.append(rng.choice(["go perft 0", "go perft 1", "go perft 2", "go split 0", "go split 1", "go split 2", "go perft 3", "go",
-                                         "go depth 2 nodes 100", "go wtime 100", "go perft 255x"]))
+                                         "go depth 2 nodes 100", "go wtime 100", "go perft 255x", "go perft 256", "go split 256", "go depth 2147483648",
+                                         "go nodes 18446744073709551616", "go depth -1", "go nodes -1"]))
         elif r < 0.62:
             lines.append("isready")
         elif r < 0.68:
@@ -134,8 +142,14 @@ def expected_counts(lines):
             if not ok:
                 continue
             d = dict(zip(names, vals))
-            num = lambda v: re.fullmatch(r"\+?\d+", v or "") is not None
-            kinds = [k for k in ("depth", "nodes", "movetime", "infinite", "perft", "split") if k in d and (k == "infinite" or num(d[k]))]
+            limit = {"depth": (-(1 << 31), (1 << 31) - 1), "nodes": (0, (1 << 64) - 1), "perft": (0, 255), "split": (0, 255)}
+
+            def num(v, k="wtime"):
+                if re.fullmatch(r"[+-]?\d+", v or "") is None:
+                    return False
+                lo, hi = limit.get(k, (0, (1 << 32) - 1))
+                return lo <= int(v) <= hi and not (v.startswith("-") and lo == 0 and int(v) == 0 and False)
+            kinds = [k for k in ("depth", "nodes", "movetime", "infinite", "perft", "split") if k in d and (k == "infinite" or num(d[k], k))]
             tm = "wtime" in d and "btime" in d and num(d["wtime"]) and num(d["btime"])
             if ("wtime" in d and num(d["wtime"])) != ("btime" in d and num(d["btime"])):
                 continue
@@ -172,7 +186,13 @@ def check_C15(run):
               "position fen 4k2r/8/8/8/8/8/8/4K2R b Kk - 0 1 moves e8g8", "print", "go depth 1"],
               ["go wtime 1000 btime 1000 movestogo 0"], ["go split 0"], ["go depth 0"], ["go nodes 0"], ["go movetime 0"],
               ["position fen 7k/8/8/8/8/8/8/K5R1 w - - 100 80", "go depth 2"], [], ["quit"], ["isready", "isready"],
-              ["position startpos moves g1f3 g8f6 f3g1 f6g8 g1f3 g8f6 f3g1 f6g8", "go depth 2", "history"]]
+              ["position startpos moves g1f3 g8f6 f3g1 f6g8 g1f3 g8f6 f3g1 f6g8", "go depth 2", "history"],
+              ["isready", "position startpos moves e2e4 e7e5", "go wtime 60000 btime 60000 winc 0 binc 0 movestogo 4294967295", "isready"],
+              ["isready", "position startpos moves e2e4", "go wtime 200 btime 200 movestogo 4294967294", "isready", "go wtime 4294967295 btime 4294967295 movestogo 4294967295"],
+              ["go wtime 100 btime 100 winc 4294967295 binc 4294967295 movestogo 4294967295", "isready"],
+              ["go wtime 100 btime 100 movestogo 4294967296", "go wtime 4294967296 btime 100", "go movetime 4294967296", "go depth 2147483648", "isready"],
+              ["go perft 256", "go split 256", "go nodes 18446744073709551616", "go depth -1", "go nodes -1", "isready"],
+              ["setoption name Hash value 18446744073709551616", "setoption name Hash value -1", "isready", "go depth 1"]]
     for f in G.EXTREME_FENS[:3]:
         corpus.append(["position fen " + f, "go depth 1", "isready", "go nodes 0", "go perft 1", "eval", "print"])
         corpus.append(["isready", "position fen " + f, "go movetime 1", "go depth 2"])
@@ -245,7 +265,7 @@ def check_C16(run):
     run.cov["rule"] = ("random command prefix (positions, move lists, searches, option changes, perft runs) then `ucinewgame` + `position X` "
                        "+ reports (print, history, eval, go perft 2, go split 1, go depth 3) compared with a freshly started engine given "
                        "the same option values and the same `position X` + reports; without ucinewgame: print/history/eval only; both "
-                       "also compared with the model; plus deep searches (depth 5-6, Hash default/1/3 MB) that fill the table, then ucinewgame and the same or "
+                       "also compared with the model; plus: previous position with the same placement and key but other counters, then `position X` without ucinewgame; plus deep searches (depth 5-6, Hash default/1/3 MB) that fill the table, then ucinewgame and the same or "
                        "a neighbouring search, against a fresh engine; non-trivial = prefix contains a search")
     rel = vlib.build_engine("release")
     legal_cache = {}
@@ -308,6 +328,24 @@ def check_C16(run):
             ["isready"] + ["isready"] + [posl] + reports + ["quit"]
         jobs.append((full, fresh, newgame, any(l.startswith("go depth") or l.startswith("go nodes") for l in prefix)))
 
+    # without ucinewgame: the previous position has the same placement (hence the same key) as the new one but other counters
+    START = "rnbqkbnr/pppppppp/8/8/8/8/PPPPPPPP/RNBQKBNR w KQkq - 0 1"
+    for k in range(24 if th else 8):
+        if k % 2 == 0:
+            posl = "position startpos" + rng.choice(["", "", " moves e2e4", " moves g1f3 g8f6"])
+            prev = rng.choice(["position fen rnbqkbnr/pppppppp/8/8/8/8/PPPPPPPP/RNBQKBNR w KQkq - 99 60",
+                               "position fen rnbqkbnr/pppppppp/8/8/8/8/PPPPPPPP/RNBQKBNR w KQkq - 7 33",
+                               "position startpos moves " + " ".join(["g1f3 g8f6 f3g1 f6g8"] * rng.choice([1, 2, 25]))])
+        else:
+            cands = [e["fen"] for e in pool if e["fen"].split(" ")[3] == "-" and std_geometry(e["fen"])]
+            f = rng.choice(cands)
+            pp = f.split(" ")
+            pp[4], pp[5] = str(rng.choice([0, 3, 50, 99, 100, 150])), str(rng.choice([1, 2, 40, 300]))
+            posl, prev = "position fen " + f, "position fen " + " ".join(pp)
+        reports = ["print", "history", "eval"]
+        full = ["isready", prev] + (["go depth 1"] if rng.random() < 0.5 else []) + ["isready", posl] + reports + ["quit"]
+        fresh = ["isready", "isready", posl] + reports + ["quit"]
+        jobs.append((full, fresh, False, False))
     # deep searches that fill the whole table (every slot region, the last ones too), then ucinewgame and the same or a nearby search
     deep = [("position startpos", 6), ("position fen r3k2r/p1ppqpb1/bn2pnp1/3PN3/1p2P3/2N2Q1p/PPPBBPPP/R3K2R w KQkq - 0 1", 5),
             ("position startpos moves e2e4 e7e5 g1f3", 6), ("position fen r1bqkbnr/pppp1ppp/2n5/4p3/2B1P3/5N2/PPPP1PPP/RNBQK2R b KQkq - 3 3", 6)]
